@@ -127,7 +127,15 @@ def decode(ex, buf, base, order, toks):
             off = mk_int(zint(off) + zint(c))
             continue
         if ch == 'p':
-            raise Unsupported('struct p code')
+            # pascal string: a length octet (clamped to count-1) followed by the data
+            if not isinstance(c, int) or c < 1:
+                raise Unsupported('struct p code with symbolic count')
+            b0 = mk_int(buf.at(off if isinstance(off, int) else off.t))
+            ln = b0 if isinstance(b0, int) and b0 <= c - 1 else mk_int(z3.If(zint(b0) > c - 1, c - 1, zint(b0)))
+            out.append(N.bytes_slice(ex, SBytes(buf.length, buf._at, False, conc=buf.conc),
+                                     slice(mk_int(zint(off) + 1), mk_int(zint(off) + 1 + zint(ln)), None), False))
+            off = mk_int(zint(off) + c)
+            continue
         for _ in range(c):
             if ch == 'c':
                 out.append(N.bytes_slice(ex, buf, slice(off, mk_int(zint(off) + 1), None), False))
